@@ -175,7 +175,10 @@ impl Prop for C01 {
         tier.pick(4_000, 800_000)
     }
     fn strategy(tier: Tier) -> BoxedStrategy<BFCase> {
-        bf_case(params(tier), 50)
+        let mut p = params(tier);
+        // per-step identities are where a step of a few kWh next to a step of 1e7 kWh matters
+        p.mag_w = 12;
+        bf_case(p, 50)
     }
     fn describe(c: &BFCase) -> Value {
         c.describe()
